@@ -222,9 +222,16 @@ def iden_derived(f, t, node, depth=0, seen=None):
         if n.get("k") == "local" and n.get("name") not in seen:
             seen.add(n["name"])
             for l in walk(t.body):
-                if l.get("k") == "stmt_let" and l.get("init") is not None and any(b.get("k") == "bind" and b.get("name") == n["name"] for b in walk(l["pat"])):
+                # every way the name can be bound: `let pat = init`, `if let pat = init` / `while let`, a match arm's pattern
+                if l.get("k") in ("stmt_let", "let") and l.get("init") is not None and isinstance(l.get("pat"), dict) and \
+                        any(b.get("k") == "bind" and b.get("name") == n["name"] for b in walk(l["pat"])):
                     if iden_derived(f, t, l["init"], depth + 1, seen):
                         return True
+                if l.get("k") == "match" and isinstance(l.get("scrut"), dict):
+                    for arm in l.get("arms") or []:
+                        if any(b.get("k") == "bind" and b.get("name") == n["name"] for b in walk(arm.get("pat") or {})):
+                            if iden_derived(f, t, l["scrut"], depth + 1, seen):
+                                return True
     return False
 
 
